@@ -351,6 +351,12 @@ pub struct World {
     pub panic_msg: Option<String>,
     /// C04 bookkeeping for finishing / dropping operations
     pub op_obs: Vec<OpObs>,
+    /// evaluate the screen oracles (off for fault-injection runs, where draws fail on purpose)
+    pub check_screen: bool,
+    /// (op index, call name, returned Ok?) for io::Result-returning calls
+    pub io_results: std::rc::Rc<std::cell::RefCell<Vec<(u64, &'static str, bool)>>>,
+    /// (op index, faults injected while the op ran)
+    pub op_faults: Vec<(usize, u64)>,
     pub check_cursor: bool,
 }
 
@@ -391,6 +397,9 @@ impl World {
             user_lines_total: 0,
             panic_msg: None,
             op_obs: Vec::new(),
+            check_screen: true,
+            io_results: Default::default(),
+            op_faults: Vec::new(),
             check_cursor: true,
         }
     }
@@ -447,6 +456,7 @@ impl World {
         // ---- 1. model first, and decide what the real call is -----------------------------
         let mut ctx = FlushCtx::default();
         let calls_before = self.spy.calls();
+        let faults_before = self.spy.state().faults_injected;
         let call = self.apply_model(i, op, &mut ctx);
 
         // ---- 2. the real call ---------------------------------------------------------------
@@ -468,7 +478,15 @@ impl World {
         }
 
         // ---- 3. observe -----------------------------------------------------------------------
+        let faults = self.spy.state().faults_injected - faults_before;
+        if faults > 0 {
+            self.op_faults.push((i, faults));
+        }
         let snaps = self.spy.take_snaps();
+        if !self.check_screen {
+            self.user_lines_total += ctx.user_lines;
+            return;
+        }
         let flushed = self.spy.flushes() - flushes_before;
         if ctx.finishing || ctx.drop_finished {
             self.op_obs.push(OpObs {
@@ -775,8 +793,10 @@ impl World {
                 self.logs.extend(lines);
                 self.intervene();
                 let t = t.clone();
+                let (io, i) = (self.io_results.clone(), _i as u64);
                 Some(Box::new(move || {
-                    let _ = mp.println(t);
+                    let r = mp.println(t);
+                    io.borrow_mut().push((i, "MultiProgress::println", r.is_ok()));
                 }))
             }
             Op::Suspend(b, lines) => {
@@ -990,8 +1010,10 @@ impl World {
                 ctx.forced = true;
                 ctx.clear_only = true;
                 self.intervene();
+                let (io, i) = (self.io_results.clone(), _i as u64);
                 Some(Box::new(move || {
-                    let _ = mp.clear();
+                    let r = mp.clear();
+                    io.borrow_mut().push((i, "MultiProgress::clear", r.is_ok()));
                 }))
             }
             Op::Align(bottom) => {
